@@ -534,6 +534,48 @@ theorem handshake_missing_key_or_version (sha1 : List Byte → List Byte) (F : R
   · simp [h]
   · cases hv : F.version <;> simp [h]
 
+/-- Sub-protocol selection, unconditional part: the `Sec-WebSocket-Protocol` value of the answer is
+absent or exactly the single word `base64` or `binary` — never a list, never an echo of the offer —
+and the connection's base64 flag says which one. -/
+theorem protocol_selection_single (offered : Option (List Byte)) :
+    ((chooseProtocol offered).2 = [] ∧ (chooseProtocol offered).1 = false) ∨
+    ((chooseProtocol offered).2 = bBase64 ∧ (chooseProtocol offered).1 = true) ∨
+    ((chooseProtocol offered).2 = bBinary ∧ (chooseProtocol offered).1 = false) := by
+  rcases chooseProtocol_spec offered with h | ⟨_, _, _, _, _, h | h⟩
+  · exact .inl h
+  · exact .inr (.inl h)
+  · exact .inr (.inr h)
+
+/-- Sub-protocol selection: the selected sub-protocol is **one of the offered tokens or absent**
+(tokens = the comma-separated elements of the header value with surrounding blanks removed), for
+every offer in which the words `base64` / `binary` occur as whole tokens only.  (The C code selects
+with `strstr`; an offer such as `superbase64x` is answered with `base64` — see
+`protocol_selection_substring_quirk` and docs/C09.md, observation on sub-protocol matching.) -/
+theorem protocol_selection_offered_or_absent (offered : Option (List Byte))
+    (hclean : ∀ p, offered = some p → ∀ s ∈ splitComma p,
+      (hasInfix bBase64 s = true → stripBlanks s = bBase64) ∧
+      (hasInfix bBinary s = true → stripBlanks s = bBinary)) :
+    (chooseProtocol offered).2 = [] ∨
+    ∃ p, offered = some p ∧ (chooseProtocol offered).2 ∈ offerTokens p := by
+  cases offered with
+  | none => exact .inl rfl
+  | some p =>
+    rcases chooseProtocol_token p (hclean p rfl) with h | h
+    · exact .inl h
+    · exact .inr ⟨p, rfl, h⟩
+
+/-- the side condition of `protocol_selection_offered_or_absent` is needed: substring matching -/
+theorem protocol_selection_substring_quirk :
+    (chooseProtocol (some (strBytes "superbase64x"))).2 = bBase64 ∧
+    bBase64 ∉ offerTokens (strBytes "superbase64x") := by decide
+
+-- non-vacuity: the side condition holds for ordinary offers and the answer is the offered token
+example : (∀ s ∈ splitComma (strBytes "chat , binary,mqtt"),
+      (hasInfix bBase64 s = true → stripBlanks s = bBase64) ∧
+      (hasInfix bBinary s = true → stripBlanks s = bBinary)) ∧
+    offerTokens (strBytes "chat , binary,mqtt") = [strBytes "chat", bBinary, strBytes "mqtt"] ∧
+    (chooseProtocol (some (strBytes "chat , binary,mqtt"))).2 = bBinary := by decide
+
 -- non-vacuity: a small request, header names in mixed case, in "wrong" order
 private def exLines : List (List Byte) :=
   [strBytes "GET /vnc HTTP/1.1", strBytes "sec-websocket-KEY: dGhlIHNhbXBsZSBub25jZQ==",
